@@ -34,7 +34,7 @@ class TaskRec:
     __slots__ = (
         "pool", "tid", "req", "inv", "begun", "finished", "outcome", "pending",
         "owed", "seen", "self_pending", "ccb", "ecb", "complete", "unbegun_cancelled",
-        "forget", "task", "events", "susp_after_self", "cancel_ops", "done_unknown", "claim", "counted", "vias", "extra_ok", "q_suspended", "inline_flush", "user_raised",
+        "forget", "task", "events", "susp_after_self", "cancel_ops", "done_unknown", "claim", "counted", "vias", "extra_ok", "q_suspended", "inline_flush", "user_raised", "cb_task",
     )
 
     def __init__(self, pool, tid, req=None):
@@ -45,6 +45,7 @@ class TaskRec:
         self.begun = False
         self.finished = False  # worker body finished
         self.q_suspended = False
+        self.cb_task = None  # the asyncio task the callbacks of this pool task run in (a follow-up task if it was cancelled before its first step)
         self.user_raised = None  # an injected exception that the body or a callback of this task raised
         self.inline_flush = None  # the FlushRec of a flush() this worker awaits inline right now
         self.outcome = None  # 'return' | 'raise' | 'cancelled'
